@@ -365,6 +365,34 @@ func (g *G) c18Loop() *c18Case {
 	n := g.c18Size()
 	c := g.c18Center()
 	cs := &c18Case{center: c, rho: -1}
+	if r.Intn(10) == 0 {
+		// vertices next to the six points +-e1, +-e2, +-e3 of a random orthonormal frame (within 1e-9 .. 1e-6 rad), 4 to 6 of them in
+		// a random order: pairs of nearly antipodal NON-adjacent vertices, so that the fan origin of the surface integral (V_0) has
+		// to be replaced when an edge comes within 1e-5 rad of its antipode, replaced again, and reverted (the second and third
+		// origin-switch branches; seeded change C18_1).  Every rotation of such a loop starts the fan elsewhere.
+		e1 := c
+		e2 := s2.Point{Vector: e1.Ortho().Normalize()}
+		e3 := s2.Point{Vector: e1.Cross(e2.Vector).Normalize()}
+		six := []s2.Point{e1, e2, e3, {Vector: e1.Mul(-1)}, {Vector: e2.Mul(-1)}, {Vector: e3.Mul(-1)}}
+		perm := []int{0, 1, 2, 3, 4, 5}
+		for i := 5; i > 0; i-- {
+			j := r.Intn(i + 1)
+			perm[i], perm[j] = perm[j], perm[i]
+		}
+		m := 4 + r.Intn(3)
+		eps := math.Pow(10, -9+3*r.Float())
+		var pts []s2.Point
+		for _, k := range perm[:m] {
+			q := six[k]
+			d := r3.Vector{X: r.Float()*2 - 1, Y: r.Float()*2 - 1, Z: r.Float()*2 - 1}.Mul(eps)
+			pts = append(pts, s2.Point{Vector: q.Add(d).Normalize()})
+		}
+		cs.pts, cs.kind = pts, "octa"
+		if !c18Valid(cs.pts) {
+			return nil
+		}
+		return cs
+	}
 	switch k := r.Intn(14); k {
 	case 0, 1: // regular / star, general radius
 		rads := []float64{1e-6, 1e-4, 0.01, 0.1, 0.5, 1.0, 1.4}
@@ -637,7 +665,7 @@ func genC18(g *G) {
 			}
 			g.emit("c18cent", ptok, cap, sg)
 		}
-		if n <= 120 && (cs.kind == "greatcircle" || cs.kind == "longedge" || cs.kind == "big" || r.Intn(4) == 0) {
+		if n <= 120 && (cs.kind == "greatcircle" || cs.kind == "longedge" || cs.kind == "big" || cs.kind == "octa" || r.Intn(4) == 0) {
 			g.emit("c18surf", ptok)
 		}
 		if it%6 == 0 {
